@@ -235,6 +235,10 @@ func StdOps(s OpSpec) []Op {
 // driverQuery runs a query through the driver's Statement on the given handle
 // (VerifStatement hook), draining it the way database/sql does.
 func driverQuery(h *sqlittle.DB, q string, c *collector) error {
+	return driverQueryCB(h, q, c.add, c)
+}
+
+func driverQueryCB(h *sqlittle.DB, q string, add func(row []interface{}) bool, _ *collector) error {
 	st := sdriver.VerifStatement(h, q)
 	rows, err := st.QueryContext(context.Background(), nil)
 	if err != nil {
@@ -260,7 +264,7 @@ func driverQuery(h *sqlittle.DB, q string, c *collector) error {
 				row[i] = v
 			}
 		}
-		if c.add(row) {
+		if add(row) {
 			break
 		}
 	}
